@@ -336,6 +336,30 @@ class Body:
             self._calls = cs
         return self._calls
 
+    def fn_items(self):
+        """function items used as values (passed to combinators): set of def paths"""
+        out = set()
+        for bl in self.blocks:
+            if bl["id"] not in self.reach():
+                continue
+            ops = []
+            for st in bl["stmts"]:
+                if st["k"] == "assign":
+                    rv = st["rv"]
+                    for key in ("a", "b"):
+                        if key in rv and isinstance(rv[key], dict):
+                            ops.append(rv[key])
+                    ops.extend(rv.get("ops", []))
+            if bl["term"]["k"] == "call":
+                ops.extend(bl["term"]["args"])
+            for o in ops:
+                if "k" in o and "fn" in o["k"]:
+                    out.add(strip_generics(o["k"]["fn"]))
+        return out
+
+    def mentioned_fns(self):
+        return set(c.name for c in self.calls()) | set(c.callee for c in self.calls()) | self.fn_items()
+
     def calls_to(self, pred):
         """pred: str (exact name/callee match, suffix allowed with leading '::') or callable"""
         out = []
@@ -483,6 +507,48 @@ class Body:
         if k == "repeat":
             return ("repeat", self.operand_term(rv["a"], depth), rv["n"])
         return ("unknown", k)
+
+    def provenance(self, term, depth=6, _seen=None):
+        """flow-insensitive sources of a term: follows multi-assigned locals through all their defs.
+        returns dict(params=set(names), upvars=set, fields=set((owner,name)), calls=set(names), consts=set, aggs=set((adt,variant)))"""
+        out = {"params": set(), "upvars": set(), "fields": set(), "calls": set(), "consts": set(), "aggs": set(), "locals": set()}
+        if _seen is None:
+            _seen = set()
+        for t in walk(term):
+            if not isinstance(t, tuple) or not t:
+                continue
+            k = t[0]
+            if k == "param":
+                out["params"].add(t[2])
+            elif k == "upvar":
+                out["upvars"].add(t[1])
+            elif k == "field":
+                out["fields"].add((t[3], t[2]))
+            elif k == "call":
+                out["calls"].add(t[1])
+            elif k == "const":
+                out["consts"].add(t[3] if len(t) > 3 else t[2])
+            elif k == "cref":
+                out["consts"].add(t[1])
+            elif k == "agg":
+                out["aggs"].add((t[1], t[2]))
+            elif k == "local":
+                l = t[1]
+                out["locals"].add(t[2])
+                if l in _seen or depth <= 0:
+                    continue
+                _seen.add(l)
+                for d in self.defs().get(l, []):
+                    if d[0] == "stmt":
+                        sub = self.rvalue_term(d[3]["rv"])
+                    elif d[0] == "call":
+                        sub = self.call_term(d[1], d[3])
+                    else:
+                        continue
+                    r = self.provenance(sub, depth - 1, _seen)
+                    for kk in out:
+                        out[kk] |= r[kk]
+        return out
 
     # ---------------------------------------------------------------- statements helpers
     def assignments(self):
@@ -870,6 +936,31 @@ class Program:
     def body(self, path):
         b = self.bodies.get(path)
         return b
+
+    def trans_field_reads(self, owner):
+        """fn def path -> set of fields of ADT `owner` read by the fn or anything it may call"""
+        key = ("tfr", owner)
+        if not hasattr(self, "_memo"):
+            self._memo = {}
+        if key in self._memo:
+            return self._memo[key]
+        direct = {}
+        for d, b in self.bodies.items():
+            fs = set(n for (_bb, o, n, _sp) in b.field_reads() if o == owner)
+            direct[d] = fs
+        cg = self.callgraph()
+        res = {d: set(v) for d, v in direct.items()}
+        changed = True
+        while changed:
+            changed = False
+            for d in res:
+                for c in cg.get(d, ()):
+                    add = res.get(c, set()) - res[d]
+                    if add:
+                        res[d] |= add
+                        changed = True
+        self._memo[key] = res
+        return res
 
     def find_bodies(self, suffix):
         return [b for d, b in self.bodies.items() if d.endswith(suffix)]
